@@ -129,6 +129,10 @@ def _totality(V, group):
             # (Python itself refuses non-string keywords before utype is involved)
             call_checked(V, name + '(**data)', T, **x)
             return
+        if V.bool('positional'):
+            # the data handed to the constructor as its positional argument, whatever it is
+            call_checked(V, name + '(data)', T, x)
+            return
         call_checked(V, name + '.__from__', T.__from__, x)
     else:
         call_checked(V, name, T, x)
@@ -385,3 +389,25 @@ def extra_checks(tier, seed):
                          'loops_not_encoded': others,
                          'loops_not_encoded_reason': 'declaration-time or generator-driver loops (not reachable from a '
                                                      'parse of untrusted input with a data-dependent trip count)'}}
+
+
+# ------------------------------------------------------------------ decorated functions with aliased parameters
+@utype.parse
+def aliased_fn(a: int = utype.Param(5, alias='A'), b: int = 0, *, c: int = utype.Param(1, alias_from=['cc'])):
+    return a, b, c
+
+
+@ob('function/aliased-parameters', marks=['accept', 'reject'], budget=(40, 120),
+    bounds='def f(a: int = Param(5, alias="A"), b: int = 0, *, c: int = Param(1, alias_from=["cc"])): 0..2 positional arguments and a '
+           'solver-chosen subset of the keywords {a, A, b, c, cc}, values "5" | "x": the call returns or raises ParseError '
+           '(calls Python itself refuses -- the same parameter by position and by one of its names -- are outside the statement)')
+def function_aliased_parameters(V):
+    vals = ['5', 'x']
+    args = [V.pick('p%d' % i, vals) for i in range(V.pick('n_pos', [0, 1, 2]))]
+    kwargs = {}
+    for k in ('a', 'A', 'b', 'c', 'cc'):
+        if V.bool('kw_' + k):
+            kwargs[k] = V.pick('v_' + k, vals)
+    if (len(args) >= 1 and ('a' in kwargs or 'A' in kwargs)) or (len(args) >= 2 and 'b' in kwargs):
+        return
+    call_checked(V, 'aliased_fn', aliased_fn, *args, **kwargs)
